@@ -47,8 +47,12 @@ fn init_scheduler() {
     thread::spawn(move || {
         // timer function
         let timer_event_handler = |c: Arc<AtomicOption<CoroutineImpl>>| {
+            #[cfg(may_verif)]
+            may_queue::verif::point(may_queue::verif::site::TIMER_FIRE, Arc::as_ptr(&c) as usize);
             // just re-push the co to the visit list
             if let Some(mut co) = c.take() {
+                #[cfg(may_verif)]
+                may_queue::verif::point(may_queue::verif::site::TIMER_FIRE_TOOK, Arc::as_ptr(&c) as usize);
                 // set the timeout result for the coroutine
                 set_co_para(&mut co, io::Error::new(io::ErrorKind::TimedOut, "timeout"));
                 // s.schedule_global(c);
@@ -153,6 +157,8 @@ impl Scheduler {
                     continue 'work;
                 }
                 None => {
+                    #[cfg(may_verif)]
+                    may_queue::verif::point(may_queue::verif::site::SCHED_AFTER_POP_NONE, id);
                     self.collect_global(id);
                     if local.has_tasks() {
                         continue 'work;
@@ -169,6 +175,8 @@ impl Scheduler {
                         let target = (id + _i + 1) % self.workers;
                     }
                 };
+                #[cfg(may_verif)]
+                may_queue::verif::point(may_queue::verif::site::SCHED_BEFORE_STEAL, id);
                 let stealer = self.stealers.get(target).unwrap();
                 if let Some(co) = stealer.steal_into(local) {
                     run_coroutine(co);
@@ -215,6 +223,8 @@ impl Scheduler {
             .rem_euclid(self.workers);
         let global = unsafe { self.global_queues.get_unchecked(thread_id) };
         global.push(co);
+        #[cfg(may_verif)]
+        may_queue::verif::point(may_queue::verif::site::SCHED_GLOBAL_PUSHED, thread_id);
         // signal one waiting thread if any
         self.get_selector().wakeup(thread_id);
     }
@@ -226,6 +236,8 @@ impl Scheduler {
         // println!("Scheduling to {thread_id}");
         let global = unsafe { self.global_queues.get_unchecked(thread_id) };
         global.push(co);
+        #[cfg(may_verif)]
+        may_queue::verif::point(may_queue::verif::site::SCHED_GLOBAL_PUSHED, thread_id);
         // signal one waiting thread if any
         self.get_selector().wakeup(thread_id);
     }
@@ -237,6 +249,8 @@ impl Scheduler {
         #[cfg(not(feature = "work_steal"))]
         let local = unsafe { self.local_queues.get_unchecked(id) };
         let global = unsafe { self.global_queues.get_unchecked(id) };
+        #[cfg(may_verif)]
+        may_queue::verif::point(may_queue::verif::site::SCHED_COLLECT, id);
         let mut v = global.bulk_pop();
         while !v.is_empty() {
             for co in v {
